@@ -48,6 +48,16 @@ Theorem C20_event_nonces_canonical :
 Proof. exact relay_consistent. Qed.
 Print Assumptions C20_event_nonces_canonical.
 
+(* The same for the form of a round that is co-executed with the connector process (suite relay: the claims as the
+   committer receives them, with their heights): whole-block cursor afterwards, event nonces consecutive from the
+   cursor's next nonce. *)
+Theorem C20_relay_claims_numbered_consecutively :
+  forall start chain c latest, 0 <= cu_block start -> consistent start chain c ->
+    consistent start chain (fst (relay_claims chain c latest)) /\
+    map claim_nonce (snd (relay_claims chain c latest)) = zseq (cu_nonce c) (length (snd (relay_claims chain c latest))).
+Proof. exact relay_claims_consistent. Qed.
+Print Assumptions C20_relay_claims_numbered_consecutively.
+
 (* A deposit becomes a claim only if its command is well formed: a known type with a valid recipient
    for the target chain and a fee that parses as an integer f with 0 <= f < amount - amount/100. *)
 Theorem C20_command_well_formed :
